@@ -41,6 +41,11 @@ META = {
         "design_ref": "§5 C18", "note": TB + "modelled not verified: rustc's interpreter (it is the implementation side of the correspondence).",
         "technique": "Lean 4 case analysis over the const API on regenerated guards/offsets/provenance (reusing C02/C10 theorems) + compiled const-item corpus correspondence",
     },
+    "C12": {
+        "text": "check_eq_spec: for every public operation relating two lengths (append/prepend, pop, remove, split owned/&/&mut, concat, flatten, unflatten, zip, comparisons, from/into_array, native-array From/AsRef/AsMut impls, from/into_chunks(_mut), tuples) and all lengths, the regenerated where-clauses (typenum operators translated to arithmetic with definedness side conditions) and associated output types accept a program exactly when the lengths agree and infer exactly the specified result lengths; rejects. auto_traits: from the regenerated list of every unsafe Send/Sync impl in the crate with its bounds, the Clone/Copy impl bounds and the field types of the storage nodes and the iterator, the array, &array and the by-value iterator are Send/Sync/Clone/Copy iff the element is (iterator never Copy). lifetimes_tied: for each of 36 APIs returning a reference made from a raw pointer or transmute, the signature analysis (elision rules, named lifetimes in fn and impl headers and associated types) ties the result to the source borrow. Correspondence: rustc's verdict on ~1500 generated accept/reject programs compiled against the crate.",
+        "design_ref": "§5 C12", "note": TB + "modelled not verified: rustc's trait solver and borrow checker (implementation side of the correspondence).",
+        "technique": "Lean 4 case analysis over regenerated where-clauses, impl bounds and signature lifetimes + compiled accept/reject program corpus correspondence",
+    },
     "C17": {
         "text": "serialize_shape (a tuple of declared length N with exactly the N elements in order, no extra framing); ok_iff / no_partial: visit_seq returns Ok exactly when the source delivers N elements and then no surplus (an up-front hint != N rejects before any read; short, long and failing sources are errors) and an Ok array is always the N delivered elements; roundtrip; read_ledger: on every path each element read so far is either in the returned array or dropped exactly once, nothing uninitialised is dropped (by the fill-loop ledger of C04/C07 instantiated with the scripted source). Guards (hint comparison, position == N, probe condition, finish-after-probe order) are regenerated from src/impl_serde.rs. Correspondence: scripted SeqAccess sources with event order, plus real serde_json, serde_json::Value and bincode inputs of every length around N with malformed elements.",
         "design_ref": "§5 C17", "note": TB + "modelled not verified: serde data-format crates; SeqAccess contract.",
